@@ -120,6 +120,7 @@ class RefConn:
         self.session: Optional[rc.Session] = None  # the controller's view of the transport
         self.session_key: Optional[bytes] = None
         self.verified_as: Optional[uuidlib.UUID] = None  # completed a valid verify (reference's judgement)
+        self.last: Optional[rc.Exchange] = None  # the exchange consumed by the last completed verify
 
 
 class World:
@@ -361,6 +362,8 @@ class Runner:
         _p, _t, r = self.w.conn(c)
         cur = r.cur
         ex = cur
+        if ex is None and r.last is not None and not op.get("madeup"):
+            ex = r.last  # replay / re-sign within the exchange that was already completed
         if ex is None:  # no context on this connection: the controller makes everything up
             ex = rc.Exchange(rc.x25519.X25519PrivateKey.from_private_bytes(self._rb(32)))
             ex.sepk = self._rb(32)
@@ -463,6 +466,7 @@ class Runner:
             if not success:
                 self.fail("C02:honest-controller-refused", f"valid proof for a currently paired controller ({why}) was answered {got}")
             r.verified_as = u
+            r.last = cur
             r.cur = None
         elif success:
             self.fail(
